@@ -320,6 +320,149 @@ def run_alias(job, acc):
 
 
 # ----------------------------------------------------------------------
+# a step of a LATER flow layer reads and writes, through its glob port,
+# the nodes that exist after the earlier layer's structural update
+
+def _bump(tpl, env):
+    return {'cells': {k: {'v': 1} for k in env.states['cells']}}
+
+
+worlds.probes.TEMPLATE_HOOKS['c06bump'] = _bump
+
+
+def layered_jobs():
+    return [('layered', op, phase) for op in ('add', 'delete', 'swap')
+            for phase in (0, 1, 2)]
+
+
+def run_layered(job, acc):
+    _, op, phase = job
+    case = {'shape': 'layered', 'job': job}
+    acc.case(key=job, outcome='layered')
+    leaf = shapes.leaf
+    upd = {'add': {'cells': {'_add': [{'key': 'c1',
+                                       'state': {'v': 10}}]}},
+           'delete': {'cells': {'_delete': ['c0']}},
+           'swap': {'cells': {'_add': [{'key': 'c1', 'state': {'v': 10}}],
+                              '_delete': ['c0']}}}[op]
+    kid = {'*': {'v': leaf(0)}}
+    spec = {
+        'processes': {'ticker': {
+            'cls': 'P', 'pid': 'ticker', 'ts': 1, 'log_states': False,
+            'schema': {'tk': {'n': leaf(0)}}, 'update': {'tk': {'n': 1}}}},
+        'steps': {
+            's1': {'cls': 'S', 'pid': 's1', 'log_states': False,
+                   'schema': {'cells': dict(kid)},
+                   'update': {'$n': {phase: upd}, '$else': {}}},
+            's2': {'cls': 'S', 'pid': 's2', 'log_snapshot': True,
+                   'schema': {'cells': dict(kid)},
+                   'update': {'$call': 'c06bump'}}},
+        'flow': {'s1': [], 's2': [('s1',)]},
+        'topology': {'ticker': {'tk': ('tks',)},
+                     's1': {'cells': ('cells',)},
+                     's2': {'cells': ('cells',)}},
+        'state': {'cells': {'c0': {'v': 5}, 'cx': {'v': 7}}},
+        'script': [('update', 3)]}
+    ex = worlds.execute(spec)
+    if ex.error:
+        acc.violate(fw.violation(
+            'C06.crash', f'layered:{type(ex.error[2]).__name__}',
+            f'{job}: unexpected {ex.error[2]!r}', case))
+        return
+    snap = None
+    runs = 0
+    for ev in ex.trace:
+        if ev[0] == 'snap' and ev[2] == 's2':
+            snap = ev[5]
+        elif ev[0] == 'invoke' and ev[2] == 's2':
+            runs += 1
+            want = {k: {'v': v['v']} for k, v in snap['cells'].items()}
+            if ev[6]['cells'] != want:
+                acc.violate(fw.violation(
+                    'C06.read', 'later-layer-step-reads-stale-nodes',
+                    f'{job}: step s2 (depends on s1) run {ev[3]} reads '
+                    f'{ev[6]["cells"]}, the hierarchy holds {want}', case))
+                return
+    # every child was bumped once per phase in which it existed when s2 ran
+    tree = worlds.probes.pure(ex.engine.state.get_value())['cells']
+    born = {'c0': 0, 'cx': 0, 'c1': phase}
+    base = {'c0': 5, 'cx': 7, 'c1': 10}
+    for k, node in tree.items():
+        want = base[k] + (runs - born[k])
+        if node['v'] != want:
+            acc.violate(fw.violation(
+                'C06.write', 'later-layer-step-write-lost',
+                f'{job}: cells/{k}/v = {node["v"]}, expected {want} '
+                f'({runs} phases, present from phase {born[k]})', case))
+            return
+
+
+# ----------------------------------------------------------------------
+# nodes that start from ONE default array object: writing one of them
+# through its port leaves the others alone
+
+def shared_default_jobs():
+    return [('shared-default', how, steps)
+            for how in ('initial-state', 'add', 'two-ports')
+            for steps in (1, 3)]
+
+
+def run_shared_default(job, acc):
+    import numpy as np
+    _, how, steps = job
+    case = {'shape': 'shared-default', 'job': job}
+    acc.case(key=job, outcome='shared-default')
+    field = {'_default': np.zeros(2), '_emit': True}
+    if how == 'two-ports':
+        schema = {'left': {'field': field}, 'right': {'field': field}}
+        topology = {'left': ('left',), 'right': ('right',)}
+        update = {'left': {'field': {'$lit': np.ones(2)}}}
+        state = {}
+        written, others = [('left', 'field')], [('right', 'field')]
+    else:
+        schema = {'cells': {'*': {'field': field}}}
+        topology = {'cells': ('cells',)}
+        update = {'cells': {'a': {'field': {'$lit': np.ones(2)}}}}
+        state = {'cells': {'a': {}, 'b': {}}} if how == 'initial-state' \
+            else {'cells': {'a': {}}}
+        written = [('cells', 'a', 'field')]
+        others = [('cells', 'b', 'field')]
+    processes = {'proc': {'cls': 'P', 'pid': 'proc', 'ts': 1,
+                          'log_states': False, 'schema': schema,
+                          'update': update}}
+    topo = {'proc': topology}
+    if how == 'add':
+        # b is added at run time, after a was written once
+        processes['adder'] = {
+            'cls': 'P', 'pid': 'adder', 'ts': 1, 'log_states': False,
+            'schema': {'cells': {'*': {'field': field}}},
+            'update': {'$n': {0: {'cells': {'_add': [
+                {'key': 'b', 'state': {}}]}}}, '$else': {}}}
+        topo['adder'] = {'cells': ('cells',)}
+    ex = worlds.execute({'processes': processes, 'topology': topo,
+                         'state': state,
+                         'script': [('update', steps)]})
+    if ex.error:
+        acc.violate(fw.violation(
+            'C06.crash', f'shared-default:{type(ex.error[2]).__name__}',
+            f'{job}: unexpected {ex.error[2]!r}', case))
+        return
+    tree = ex.engine.state.get_value()
+    for pth in written + others:
+        node = tree
+        for k in pth:
+            node = node[k]
+        want = float(steps) if pth in written else 0.0
+        if not np.array_equal(np.asarray(node), np.full(2, want)):
+            acc.violate(fw.violation(
+                'C06.write', 'write-changes-node-sharing-the-default',
+                f'{job}: only {written} was written ({steps} x [1, 1]); '
+                f'{pth} holds {np.asarray(node).tolist()}, expected '
+                f'{[want, want]}', case))
+            return
+
+
+# ----------------------------------------------------------------------
 # a leaf port (the port IS the variable) that sets falsy values
 
 FALSY = (0, False, '', [], {}, 0.0, None)
@@ -500,6 +643,12 @@ def run_rewire(job, acc):
 
 
 def run_job(shape, acc):
+    if isinstance(shape, tuple) and shape[0] == 'layered':
+        run_layered(shape, acc)
+        return
+    if isinstance(shape, tuple) and shape[0] == 'shared-default':
+        run_shared_default(shape, acc)
+        return
     if isinstance(shape, tuple) and shape[0] == 'leaf-falsy':
         run_leaf_falsy(shape, acc)
         return
@@ -517,12 +666,17 @@ def run_job(shape, acc):
 
 def run(ctx):
     return ctx.map(run_job, all_shapes(ctx) + ['replaced-store'] +
-                   alias_jobs() + rewire_jobs() + leaf_falsy_jobs())
+                   alias_jobs() + rewire_jobs() + leaf_falsy_jobs() +
+                   shared_default_jobs() + layered_jobs())
 
 
 def replay(case):
     acc = fw.Acc()
-    if case['shape'] == 'leaf-falsy':
+    if case['shape'] == 'layered':
+        run_layered(tuple(case['job']), acc)
+    elif case['shape'] == 'shared-default':
+        run_shared_default(tuple(case['job']), acc)
+    elif case['shape'] == 'leaf-falsy':
         j = case['job']
         run_leaf_falsy((j[0], j[1], tuple(j[2]), j[3]), acc)
     elif case['shape'] == 'rewire':
